@@ -362,4 +362,77 @@ def replay(oid, kwargs, model, data):
         else:
             got, want = fm.reduced_chi_squared(s, t, w, 1), (((t - s) / w) ** 2).sum() / (n - 1)
         return (not close(float(got), float(want), 1e-9)), {"got": float(got), "want": float(want)}
-    return False, {"note": "accumulation obligations are replayed by the fidelity of their parts"}
+    if fn == "accumulate":
+        return _replay_accumulate(kwargs, model)
+    return False, {"note": "no concrete oracle"}
+
+
+def _replay_accumulate(kwargs, model):
+    """Everything real: target / weight files on disk, real xarray, real exposure of a probe pipeline."""
+    import os
+    import tempfile
+
+    import vxprobes
+    from pyxel.calibration import fitness as fm
+    from pyxel.calibration.fitting_datatree import ModelFittingDataTree
+    from pyxel.calibration.util import FitRange2D, FitRange3D
+    from pyxel.exposure import Readout
+    from pyxel.observation import ParameterValues
+    from pyxel.pipelines import DetectionPipeline, ModelFunction, Processor
+
+    k, weights, which, full = kwargs["k"], kwargs["weights"], kwargs["which"], kwargs.get("full", False)
+    g = lambda name, d: float(model.get(name, d))  # noqa: E731
+    rng = np.random.RandomState(7)
+    tgt = np.array([[g(f"tgt_{i * 9 + j}", rng.uniform(0, 9)) for j in range(9)] for i in range(k)]).reshape((k,) + FR)
+    sims = [np.array([g(f"sim{i}_{j}", rng.uniform(0, 9)) for j in range(9)]).reshape(FR) for i in range(k)]
+    wf = np.array([[g(f"wfile_{i * 9 + j}", rng.uniform(0.5, 2)) for j in range(9)] for i in range(k)]).reshape((k,) + FR)
+    wv = [g(f"wv_{i}", 1.0 + i) for i in range(k)]
+    dv = g("dv", 0.25)
+    if np.allclose(wf, wf.flat[0]):
+        wf = wf + rng.uniform(0.1, 1.0, size=wf.shape)  # a uniform weight map cannot show which window was used
+    if full:
+        trange, orange = FitRange2D(row=slice(0, 3), col=slice(0, 3)), FitRange3D(time=slice(None, None), row=slice(0, 3), col=slice(0, 3))
+        pr = pc = ((0, 0), (1, 1), (2, 2))
+    else:
+        trange, orange = FitRange2D(row=slice(1, 3), col=slice(0, 2)), FitRange3D(time=slice(None, None), row=slice(0, 2), col=slice(1, 3))
+        pr, pc = ((1, 0), (2, 1)), ((0, 1), (1, 2))
+    tmp = tempfile.mkdtemp(prefix="vx_c11_")
+    try:
+        tfiles, wfiles = [], []
+        for i in range(k):
+            tfiles.append(os.path.join(tmp, f"tgt{i}.npy"))
+            np.save(tfiles[-1], tgt[i])
+            wfiles.append(os.path.join(tmp, f"w{i}.npy"))
+            np.save(wfiles[-1], wf[i])
+
+        def hook(d, tag, kw, rec):
+            d.pixel.array = sims[int(kw["pid"])] + float(kw["a"])
+
+        vxprobes.reset(hook)
+        pipe = DetectionPipeline(scene_generation=[ModelFunction(name="init", func="vxprobes.init_buckets")],
+                                 photon_collection=[ModelFunction(func="vxprobes.probe", name="probe", arguments={"pid": 0, "a": 0.0})])
+        proc = Processor(detector=make_ccd(*FR), pipeline=pipe)
+        f = fm.sum_of_abs_residuals if which == "abs" else fm.sum_of_squared_residuals
+        try:
+            prob = ModelFittingDataTree(
+                processor=proc, variables=[ParameterValues(key=A_KEY, values="_", boundaries=(-10.0, 10.0))], readout=Readout(), simulation_output="pixel",
+                generations=1, population_size=2, fitness_func=f, file_path=None, target_fit_range=trange, out_fit_range=orange, target_filenames=tfiles,
+                input_arguments=[ParameterValues(key=ID_KEY, values=list(range(k)))] if k > 1 else None,
+                weights=wv if weights == "vector" else None, weights_from_file=wfiles if weights == "file" else None)
+            got = float(prob.fitness(np.array([dv]))[0])
+        except ValueError as e:
+            return not (weights == "vector" and not full), {"raised": repr(e)[:200]}
+        finally:
+            vxprobes.reset(None)
+        want = 0.0
+        for i in range(k):
+            for (r_t, r_o) in pr:
+                for (c_t, c_o) in pc:
+                    w_ = wf[i, r_t, c_t] if weights == "file" else (wv[i] if weights == "vector" else 1.0)
+                    d_ = tgt[i, r_t, c_t] - (sims[i][r_o, c_o] + dv)
+                    want += abs(d_ * w_) if which == "abs" else d_ * d_ * w_
+        return (not close(got, want, 1e-9)), {"fitness_returned": got, "declared_figure_of_merit": want}
+    finally:
+        for fn_ in os.listdir(tmp):
+            os.remove(os.path.join(tmp, fn_))
+        os.rmdir(tmp)
